@@ -249,6 +249,51 @@ def ledger_part(ctx, mon):
             a, b = rng.sample(cs, 2)
             desc = rng.random() < 0.5
             ledger_case(ctx, conn, table, a, b, desc)
+        for _ in range(3):
+            ledger_distinct_case(ctx, conn, rng)
+
+
+DISTINCT_STRUCTURED = [
+    'account, sum(position) AS s FROM #postings GROUP BY account ORDER BY account',
+    'flag, balance FROM #postings',
+    'account, balance FROM #postings ORDER BY account DESC LIMIT 3',
+    'meta FROM #postings',
+    'year, month, meta, tags FROM #entries',
+    'currency, units(sum(position)) AS u FROM #postings GROUP BY currency, year',
+    'payee, other_accounts, position FROM #postings',
+    'root(account, 1) AS r, cost(position) AS c FROM #postings ORDER BY r',
+    'type, meta["note"] AS n, links FROM #entries',
+]
+
+
+def ledger_distinct_case(ctx, conn, rng):
+    """DISTINCT over rows holding values that cannot be hashed (inventories, metadata dicts) or that mix hashable and
+    unhashable rows: later duplicates go, everything else stays, in order, then LIMIT cuts."""
+    tail = rng.choice(DISTINCT_STRUCTURED)
+    plain, dist = f'SELECT {tail}', f'SELECT DISTINCT {tail}'
+    limit = None
+    if ' LIMIT ' in tail:
+        limit = int(tail.rsplit(' LIMIT ', 1)[1])
+        plain = f"SELECT {tail.rsplit(' LIMIT ', 1)[0]}"
+    try:
+        _, _, base = engine.run(conn, plain)
+        _, _, rows = engine.run(conn, dist)
+    except Exception as exc:  # noqa: BLE001
+        ctx.violation(f'c03.engine_raised.{monitors.classify_exception(exc)}', f'{dist}: {exc!r}', {'statement': dist})
+        return
+    exp = []
+    for r in base:
+        if not any(r == e for e in exp):
+            exp.append(r)
+    if limit is not None:
+        exp = exp[:limit]
+    ctx.case(('distinct-structured', dist, tuple(map(repr, base))), len(exp) < len(base))
+    ctx.count('obs.distinct_over_unhashable_rows')
+    if len(exp) < len(base):
+        ctx.count('obs.distinct_over_unhashable_rows_removed_duplicates')
+    if [tuple(r) for r in rows] != [tuple(r) for r in exp]:
+        ctx.violation('c03.distinct_structured_rows', f'{dist}: {len(rows)} rows; removing later duplicates from the {len(base)} rows of the statement without DISTINCT leaves {len(exp)}'
+                      f' (first rows {show_rows(rows, 2)} vs {show_rows(exp, 2)})', {'statement': dist})
 
 
 def ledger_case(ctx, conn, table, shown, key, desc):
@@ -291,6 +336,8 @@ def finalize(merged):
         reasons.append(f'direction patterns not covered: {sorted(want - set(pats))[:5]}')
     if c.get('obs.results_reordered', 0) == 0:
         reasons.append('no case in which sorting changed the order')
+    if c.get('obs.distinct_over_unhashable_rows_removed_duplicates', 0) == 0:
+        reasons.append('no DISTINCT over unhashable rows that removed a duplicate')
     if c.get('obs.ledger_cases', 0) == 0:
         reasons.append('no ledger-table case executed')
     merged['extra']['exhaustive'] = not (want - set(pats)) and c.get('exhaustive.executed', 0) >= c.get('exhaustive.total_cases', 1)
